@@ -14,4 +14,7 @@ let () =
   match mode with
   | "c18" -> per_line M_c18.line
   | "c18s" -> per_line M_c18.sline
+  | "c06" -> per_line M_c06.line
+  | "c06v" -> per_line M_c06.vline
+  | "c06g" -> per_line M_c06.gline
   | _ -> prerr_endline ("unknown mode " ^ mode); exit 2
